@@ -134,6 +134,9 @@ theorem funcexpr3_good (cs : Bool) (σ : List Nat) (e : Expr3) : ∀ c : Ctx, Go
         exact curOf_lbl _ _ _ _ _
       · intro name j hj
         exact ⟨"logic_join", _, rfl, Or.inr (by simp only; omega)⟩
+  | comma t a b iha ihb =>
+    intro c
+    exact (iha c).seq (ihb _)
   | cond t e a b ihe iha ihb =>
     intro c
     obtain ⟨oc, oj, oa, ob, hoc, hoj, hoa, hob, heq⟩ := funcexpr3_cond cs σ t e a b c
